@@ -178,7 +178,8 @@ def retained(insp):
 
 
 def drive_bare(name, data, sizes, qplan=None, watch_regions=True,
-               mem_bound=None, log=None, feed_after_error=False):
+               mem_bound=None, log=None, feed_after_error=False, kind=None,
+               end=None):
     """Feed one bare inspector.  qplan: {chunk_index: [query names]}.
     Returns dict(verdict, error, region_bad, max_retained, insp)."""
     m = fi()
@@ -190,8 +191,11 @@ def drive_bare(name, data, sizes, qplan=None, watch_regions=True,
     mem_bad = []
     maxret = 0
     qres = []
+    conv = SimSource.KINDS.get(kind or 'bytes', bytes)
     for idx, n in enumerate(sizes):
         chunk = data[pos:pos + n]
+        if conv is not bytes:
+            chunk = conv(chunk)
         pos += n
         if err is None or feed_after_error:
             # feed_after_error: a caller that catches what eat_chunk raises
@@ -221,7 +225,16 @@ def drive_bare(name, data, sizes, qplan=None, watch_regions=True,
         elif err is not None and rw is None and not feed_after_error:
             # a failed inspector is not fed again: nothing can change any more
             break
+    # how the stream is ended: finish() once, twice, or after one more empty
+    # chunk - the verdict is about the bytes, not about the ceremony
+    if end == 'empty_then_finish' and err is None:
+        try:
+            insp.eat_chunk(b'')
+        except Exception as e:
+            err = ['end', type(e).__name__]
     insp.finish()
+    if end == 'finish_twice':
+        insp.finish()
     if rw is not None and len(bad) < 3:
         bad.extend(rw.check(insp, 'finish'))
     if mem_bound is not None:
@@ -404,7 +417,7 @@ ASK_MODES = [(None, 5), ('plus1', 1), ('big', 2), ('double', 1)]
 
 def drive_wrapper(data, sizes, personality='iter', order=None, allowed=None,
                   expected=None, wq=None, watch_regions=True, has_close=True,
-                  ask=None):
+                  ask=None, kind=None, eof_read=True):
     """Read all of data through an InspectWrapper. wq: set of chunk indices
     after which wrapper.format/formats are sampled.
     Returns dict(per (name -> verdict), format, formats, samples, error)."""
@@ -414,7 +427,7 @@ def drive_wrapper(data, sizes, personality='iter', order=None, allowed=None,
         plan = [s for s in sizes if s > 0]
     else:
         plan = list(sizes)
-    src = cls(data, plan)
+    src = cls(data, plan, kind=kind)
     w = m.InspectWrapper(src, expected_format=expected,
                          allowed_formats=allowed)
     names = order_inspectors(w, order) if order is not None else None
@@ -427,6 +440,10 @@ def drive_wrapper(data, sizes, personality='iter', order=None, allowed=None,
     try:
         while True:
             if personality == 'file':
+                if not eof_read and idx >= len(plan):
+                    # the reader knows the length and never makes the read
+                    # that would return b''
+                    break
                 req = plan[idx] if idx < len(plan) else 4096
                 chunk = w.read(ask_size(ask, req if req > 0 else 1))
                 if not chunk:
